@@ -481,7 +481,16 @@ pub fn c12(c: &mut Collector, seed: u64, shard: u64, nshards: u64, thorough: boo
             }
         }
     }
+    // mates by a capture that leaves only two minor pieces (insufficient-material boundary)
+    for (i, p) in workload::small_material_mates().into_iter().enumerate() {
+        if i as u64 % nshards == shard {
+            positions.push(EnginePos { label: "small-material-capture-mate", pos: p, history: vec![] });
+        }
+    }
     for (pi, ep) in positions.iter().enumerate() {
+        if ep.label == "small-material-capture-mate" {
+            c.tag("small-material-capture-mate");
+        }
         c12_one(c, ep, pi, seed, shard, budget);
     }
 }
